@@ -107,6 +107,13 @@ def replay_access_case(case):
                     src = fpath
                 elif cfg["source"] == "pathlib":
                     src = pathlib.Path(fpath)
+                elif cfg["source"] == "gzip":
+                    import gzip
+                    gz = fpath + ".gz"
+                    if not os.path.exists(gz):
+                        with gzip.open(gz, "wb") as gh:
+                            gh.write(e.data + b"")
+                    src = opened = gzip.open(gz, "rb")         # has a fileno(), of the (smaller) compressed file
                 elif cfg["source"] == "fileobj":
                     src = opened = open(fpath, "rb")          # a real file object supplied by the caller
                 else:
